@@ -302,9 +302,7 @@ def p_merge(job):
                 f.write(corpus.font_bytes(rel))
             paths.append(p)
         m = Merger()
-        font = m.merge(paths)
-        h, data = _hash_font(font)
-        return ("hashed", h, data)
+        return m.merge(paths)       # inputs are read into memory by TTFont(lazy=None)
     finally:
         import shutil
 
